@@ -91,6 +91,13 @@ impl Prop for C13 {
           else { push(&mut out, cell, n, text, json!({"clamp_or_err": [sc_i("i64", i64::MAX as i128)], "exactkinds": ["i64"], "exactval": val.to_string()})); }
         }
       }
+      // based literals with a character that is not a digit of the base: not a number of that base, must not evaluate to one
+      for (pfx, good, bad) in [("0x", "1f", "g"), ("0x", "a", "z"), ("0o", "17", "8"), ("0o", "7", "9"), ("0b", "10", "2"), ("0b", "1", "O"), ("0b", "101", "9")] {
+        for pos in ["end", "middle"] {
+          let body = if pos == "end" { format!("{}{}", good, bad) } else { format!("{}{}{}", good, bad, good) };
+          push(&mut out, format!("form=based;pfx={};mag=small;style=invalid-digit-{}", pfx, pos), { uniq += 1; n * 1000 + uniq }, format!("{}{}", pfx, body), json!({"must_err": true}));
+        }
+      }
       // rationals
       for style in ["plain", "reducible", "zero-den", "neg", "zero-num"] {
         let a = 1 + rng.below(999) as i128; let b = 1 + rng.below(99) as i128;
